@@ -82,36 +82,41 @@ fn nontrivial_rule(prop: &str) -> &'static str
 {
     match prop
     {
-        "C01" => "programs are drawn from the seeded generator (profile C01); non-trivial = at least 2 registrations applied and 2 reactions delivered; distinct = distinct hash of the full observed trace",
-        "C02" => "profiles C02 and C09P (polled reactions at tree boundaries); non-trivial = at least one delivery postponed because its target was executing; distinct = distinct observed trace",
+        "C01" => "programs are drawn from the seeded generator (profile C01, plus a quarter of the budget again in the cross profile C16: world / entity world reactors); non-trivial = at least 2 registrations applied and 2 reactions delivered; distinct = distinct hash of the full observed trace",
+        "C02" => "profiles C02 and C09P (polled reactions at tree boundaries), plus a fifth of the budget again in the cross profile C17 (trees started from inside syscall-family calls); non-trivial = at least one delivery postponed because its target was executing; distinct = distinct observed trace",
         "C03" => "profile C03; non-trivial = at least 2 deliveries postponed for a busy system or one system reacting to 2+ event kinds in one tree; distinct = distinct observed trace",
         "C04" => "profile C04; non-trivial = at least one probe system with every reader ran and one reactor body ran; distinct = distinct observed trace",
         "C05" => "profile C05; non-trivial = at least one payload event and at least one of: reader skipped (dead), reader postponed, revoke applied; distinct = distinct observed trace",
-        "C06" => "profile C06; non-trivial = at least one revoke applied and one reaction delivered; distinct = distinct observed trace",
+        "C06" => "profile C06 (plus a quarter of the budget again in the cross profile C16: world / entity world reactors); non-trivial = at least one revoke applied and one reaction delivered; distinct = distinct observed trace",
         "C07" => "profile C07; non-trivial = a ref-count reached zero or a reactor was despawned; distinct = distinct observed trace",
         "C08" => "profiles C08 and C08F (App frames); non-trivial = at least one removal/despawn event raised; distinct = distinct observed trace",
         "C09" => "profiles C09 and C09P (polled reactions at tree boundaries); non-trivial = tree depth >= 2; distinct = distinct observed trace",
         "C10" => "profile C10 (histories) plus shuttle thread schedules; non-trivial = a signal's last clone dropped; distinct = distinct observed trace / schedule outcome",
         "C11" => "profiles C11 and C09P (polled reactions at tree boundaries); non-trivial = 2+ trees on one world with an aborted or postponed delivery; distinct = distinct observed trace",
         "C12" => "profile C12; non-trivial = 2+ sender/target FIFO pairs checked with a postponed delivery; distinct = distinct observed trace",
-        "C13" => "profile C13; non-trivial = 3+ system runs; distinct = distinct observed trace",
+        "C13" => "profile C13 (plus a quarter of the budget again in the cross profile C17: state of syscall-family systems); non-trivial = 3+ system runs; distinct = distinct observed trace",
         "C14" => "profile C14; non-trivial = a set_if_neq call or an insert on an entity despawned before application; distinct = distinct observed trace",
         "C15" => "profile C15; non-trivial = a one-off reactor fired; distinct = distinct observed trace",
         "C16" => "profile C16; non-trivial = an entity world reactor body ran; distinct = distinct observed trace",
         "C17" => "profile C17; non-trivial = a syscall-family call was made; distinct = distinct observed trace",
-        _ => "profile C18; non-trivial = a delivery was skipped because its target was despawned; distinct = distinct observed trace",
+        _ => "profile C18 (plus a quarter of the budget again in the cross profile C14: accessor surface); non-trivial = a delivery was skipped because its target was despawned; distinct = distinct observed trace",
     }
 }
 
 struct Args { prop: String, tier: String, seed: u64, runs: Option<u64>, threads: usize, out: Option<String>, profile: Option<String> }
 
-fn profiles_for(prop: &str) -> Vec<&'static str>
+/// Profiles explored for a property, each with its share (per cent) of the tier's run budget. The first one is the property's own
+/// workload mix; a second entry with a full share is a second mix for the same property; the small shares are *cross* profiles:
+/// features that the property's own mix leaves out (entity world reactors, the accessor surface) but through which it can be
+/// broken just as well.
+fn profiles_for(prop: &str) -> Vec<(&'static str, u64)>
 {
     match prop
     {
-        "C01" => vec!["C01"], "C02" => vec!["C02", "C09P"], "C03" => vec!["C03"], "C04" => vec!["C04"], "C05" => vec!["C05"], "C06" => vec!["C06"],
-        "C07" => vec!["C07"], "C08" => vec!["C08", "C08F"], "C09" => vec!["C09", "C09P"], "C10" => vec!["C10"], "C11" => vec!["C11", "C09P"], "C12" => vec!["C12"],
-        "C13" => vec!["C13"], "C14" => vec!["C14"], "C15" => vec!["C15"], "C16" => vec!["C16"], "C17" => vec!["C17"], _ => vec!["C18"],
+        "C01" => vec![("C01", 100), ("C16", 25)], "C02" => vec![("C02", 50), ("C09P", 50), ("C17", 20)], "C03" => vec![("C03", 100)], "C04" => vec![("C04", 100)], "C05" => vec![("C05", 100)],
+        "C06" => vec![("C06", 100), ("C16", 25)], "C07" => vec![("C07", 100)], "C08" => vec![("C08", 50), ("C08F", 50)], "C09" => vec![("C09", 50), ("C09P", 50)], "C10" => vec![("C10", 100)],
+        "C11" => vec![("C11", 50), ("C09P", 50)], "C12" => vec![("C12", 100)], "C13" => vec![("C13", 100), ("C17", 25)], "C14" => vec![("C14", 100)], "C15" => vec![("C15", 100)], "C16" => vec![("C16", 100)],
+        "C17" => vec![("C17", 100)], _ => vec![("C18", 100), ("C14", 25)],
     }
 }
 
@@ -244,12 +249,12 @@ fn cmd_check(a: Args) -> i32
     let t0 = Instant::now();
     let prop = a.prop.as_str();
     let thorough = a.tier == "thorough";
-    let profiles: Vec<&'static str> = match &a.profile { Some(p) => vec![Box::leak(p.clone().into_boxed_str())], None => profiles_for(prop) };
+    let profiles: Vec<(&'static str, u64)> = match &a.profile { Some(p) => vec![(Box::leak(p.clone().into_boxed_str()), 100)], None => profiles_for(prop) };
     let default_runs: u64 = if thorough { 4_000_000 } else { 300_000 };
-    let runs = a.runs.unwrap_or(default_runs) / profiles.len() as u64;
     let mut total = Agg::default();
-    for p in &profiles
+    for (p, share) in &profiles
     {
+        let runs = a.runs.unwrap_or(default_runs) * share / 100;
         let ag = explore(prop, p, a.seed, runs, a.threads, thorough);
         total.stats.add(&ag.stats);
         total.evaluations += ag.evaluations;
